@@ -115,6 +115,11 @@ int main(int argc, char** argv) {
           Ls.push_back((h + (long)in1.size()) / 2);
         }
         if (b) { Ls.push_back((long)ex.href(b).size()); Ls.push_back((long)ex.href(b).size() - 1); }
+        // can_parse has its own "small enough to skip the size check" shortcut at 3 x (|input| + |base|):
+        // limits on both sides of that boundary, and every limit up to it for small inputs
+        long comb = (long)in1.size() + (b ? (long)ex.href(b).size() : 0);
+        for (long d : {-1L, 0L, 1L, 2L, 3L}) Ls.push_back(3 * comb + d);
+        if (comb <= 16) for (long L = 0; L <= 3 * comb + 8; L++) Ls.push_back(L);
       }
       std::sort(Ls.begin(), Ls.end());
       Ls.erase(std::unique(Ls.begin(), Ls.end()), Ls.end());
